@@ -34,16 +34,6 @@ impl MemoryFS {
             handle: Arc::new(RwLock::new(MemoryFsImpl::new())),
         }
     }
-
-    fn ensure_has_parent(&self, path: &str) -> VfsResult<()> {
-        let separator = path.rfind('/');
-        if let Some(index) = separator {
-            if self.exists(&path[..index])? {
-                return Ok(());
-            }
-        }
-        Err(VfsErrorKind::Other("Parent path does not exist".into()).into())
-    }
 }
 
 impl Default for MemoryFS {
@@ -183,8 +173,9 @@ impl FileSystem for MemoryFS {
     }
 
     fn create_dir(&self, path: &str) -> VfsResult<()> {
-        self.ensure_has_parent(path)?;
+        // the parent check and the insertion happen under one write lock
         let map = &mut self.handle.write().unwrap().files;
+        ensure_has_parent(map, path)?;
         let entry = map.entry(path.to_string());
         match entry {
             Entry::Occupied(file) => {
@@ -222,9 +213,10 @@ impl FileSystem for MemoryFS {
     }
 
     fn create_file(&self, path: &str) -> VfsResult<Box<dyn SeekAndWrite + Send>> {
-        self.ensure_has_parent(path)?;
         let content = Arc::new(Vec::<u8>::new());
+        // the parent check and the insertion happen under one write lock
         let mut handle = self.handle.write().unwrap();
+        ensure_has_parent(&handle.files, path)?;
         if let Some(existing) = handle.files.get(path) {
             ensure_file(existing)?;
         }
@@ -316,14 +308,19 @@ impl FileSystem for MemoryFS {
     }
 
     fn remove_dir(&self, path: &str) -> VfsResult<()> {
-        if self.read_dir(path)?.next().is_some() {
+        // the emptiness check and the removal happen under one write lock
+        let mut handle = self.handle.write().unwrap();
+        let directory = handle.files.get(path).ok_or(VfsErrorKind::FileNotFound)?;
+        if directory.file_type != VfsFileType::Directory {
+            return Err(VfsErrorKind::Other("Not a directory".into()).into());
+        }
+        let prefix = format!("{}/", path);
+        if handle.files.keys().any(|candidate_path| {
+            candidate_path.starts_with(&prefix) && !candidate_path[prefix.len()..].contains('/')
+        }) {
             return Err(VfsErrorKind::Other("Directory to remove is not empty".into()).into());
         }
-        let mut handle = self.handle.write().unwrap();
-        handle
-            .files
-            .remove(path)
-            .ok_or(VfsErrorKind::FileNotFound)?;
+        handle.files.remove(path);
         Ok(())
     }
 }
@@ -358,6 +355,16 @@ struct MemoryFile {
     created: SystemTime,
     modified: Option<SystemTime>,
     accessed: Option<SystemTime>,
+}
+
+fn ensure_has_parent(files: &HashMap<String, MemoryFile>, path: &str) -> VfsResult<()> {
+    let separator = path.rfind('/');
+    if let Some(index) = separator {
+        if files.contains_key(&path[..index]) {
+            return Ok(());
+        }
+    }
+    Err(VfsErrorKind::Other("Parent path does not exist".into()).into())
 }
 
 fn ensure_file(file: &MemoryFile) -> VfsResult<()> {
